@@ -1076,7 +1076,9 @@ static int sp_dgemv(char tA, int m, int n, number alpha, void *a, int oA,
   ccs *A = a;
   double *X = x, *Y = y;
 
-  scal[A->id]((tA == 'N' ? &m : &n), &beta, Y, &iy);
+  /* ?scal returns immediately for a nonpositive increment */
+  int iys = abs(iy);
+  scal[A->id]((tA == 'N' ? &m : &n), &beta, Y, &iys);
 
   if (!m || !n) return 0;
   int i, j, k, oi = oA % A->nrows, oj = oA / A->nrows;
@@ -1114,7 +1116,9 @@ static int sp_zgemv(char tA, int m, int n, number alpha, void *a, int oA,
   _Dcomplex tmp; 
 #endif
 
-  scal[A->id]((tA == 'N' ? &m : &n), &beta, Y, &iy);
+  /* ?scal returns immediately for a nonpositive increment */
+  int iys = abs(iy);
+  scal[A->id]((tA == 'N' ? &m : &n), &beta, Y, &iys);
 
   if (!m || !n) return 0;
   int i, j, k, oi = oA % A->nrows, oj = oA / A->nrows;
@@ -1157,7 +1161,9 @@ int sp_dsymv(char uplo, int n, number alpha, ccs *A, int oA, void *x, int ix,
     number beta, void *y, int iy)
 {
   double *X = x, *Y = y;
-  scal[A->id](&n, &beta, y, &iy);
+  /* ?scal returns immediately for a nonpositive increment */
+  int iys = abs(iy);
+  scal[A->id](&n, &beta, y, &iys);
 
   if (!n) return 0;
   int i, j, k, oi = oA % A->nrows, oj = oA / A->nrows;
@@ -1198,7 +1204,9 @@ int sp_zsymv(char uplo, int n, number alpha, ccs *A, int oA, void *x, int ix,
   _Dcomplex *X = x, *Y = y;
   _Dcomplex tmp;
 #endif
-  scal[A->id](&n, &beta, y, &iy);
+  /* ?scal returns immediately for a nonpositive increment */
+  int iys = abs(iy);
+  scal[A->id](&n, &beta, y, &iys);
 
   if (!n) return 0;
   int i, j, k, oi = oA % A->nrows, oj = oA / A->nrows;
